@@ -205,17 +205,18 @@ theorem size_member (ch cw ph pw : Nat) : termSizeRe.Matches (bytes (print (.siz
 
 /-! ## DECRPM -/
 
-theorem decMode_fromUsize (m : DecMode) : DecMode.fromUsize m.code = some m := by cases m <;> rfl
-theorem decStatus_fromUsize (s : DecModeStatus) : DecModeStatus.fromUsize s.code = some s := by cases s <;> rfl
-theorem decMode_small (m : DecMode) : m.code ≤ usizeMax := by cases m <;> decide
-theorem decStatus_small (s : DecModeStatus) : s.code ≤ usizeMax := by cases s <;> decide
+/-- the library's table of DEC private modes agrees with the numbers of the protocol documents -/
+theorem decMode_fromUsize (m : PrivateMode) : DecMode.fromUsize m.number = some m.name := by cases m <;> rfl
+theorem decStatus_fromUsize (s : ReportStatus) : DecModeStatus.fromUsize s.value = some s.name := by cases s <;> rfl
+theorem decMode_small (m : PrivateMode) : m.number ≤ usizeMax := by cases m <;> decide
+theorem decStatus_small (s : ReportStatus) : s.value ≤ usizeMax := by cases s <;> decide
 
-theorem decMode_payload (m : DecMode) (s : DecModeStatus) :
+theorem decMode_payload (m : PrivateMode) (s : ReportStatus) :
     decode .decMode (print (.decMode m s)) = .ok (some (denote (.decMode m s))) := by
-  have hp : print (.decMode m s) = [27, 91, 63] ++ ((showNat m.code ++ 59 :: showNat s.code) ++ [36, 121]) := by
+  have hp : print (.decMode m s) = [27, 91, 63] ++ ((showNat m.number ++ 59 :: showNat s.value) ++ [36, 121]) := by
     simp [print, CSI]
   have hs : slice? (print (.decMode m s)) 3 ((print (.decMode m s)).length - 2) =
-      .ok (showNat m.code ++ 59 :: showNat s.code) := by
+      .ok (showNat m.number ++ 59 :: showNat s.value) := by
     rw [hp]
     exact slice?_frame _ _ _ _ _ rfl (by simp; omega)
   simp only [decode]
@@ -225,9 +226,9 @@ theorem decMode_payload (m : DecMode) (s : DecModeStatus) :
   rw [numbersDecode_cons 59 sep59 _ (decMode_small m), numbersDecode_one 59 sep59 _ (decStatus_small s)]
   simp [decMode_fromUsize, decStatus_fromUsize, denote]
 
-theorem decMode_member (m : DecMode) (s : DecModeStatus) : decModeRe.Matches (bytes (print (.decMode m s))) := by
+theorem decMode_member (m : PrivateMode) (s : ReportStatus) : decModeRe.Matches (bytes (print (.decMode m s))) := by
   have : bytes (print (.decMode m s)) =
-      bytes [27, 91, 63] ++ (bytes (showNat m.code) ++ (bytes [59] ++ (bytes (showNat s.code) ++ (bytes [36, 121] ++ [])))) := by
+      bytes [27, 91, 63] ++ (bytes (showNat m.number) ++ (bytes [59] ++ (bytes (showNat s.value) ++ (bytes [36, 121] ++ [])))) := by
     simp [print, CSI, bytes]
   rw [this]
   exact seq_cons_matches (lit_matches _) (seq_cons_matches (number_matches _) (seq_cons_matches (lit_matches _)
@@ -345,8 +346,7 @@ theorem csiU_print (code : Nat) (alts : List Nat) (mods : Option Nat) :
 theorem keyboardDecodeKey_ok (code : Nat) (h : CsiUCodeOk code) : keyboardDecodeKey code = some (csiUName code) := by
   obtain ⟨hs, hp⟩ := h
   have hlt : code < 0x110000 := by
-    unfold isScalar at hs
-    simp at hs
+    unfold Scalar at hs
     omega
   unfold keyboardDecodeKey csiUName
   by_cases h1 : code = 27
@@ -361,7 +361,9 @@ theorem keyboardDecodeKey_ok (code : Nat) (h : CsiUCodeOk code) : keyboardDecode
   · simp [h1, h2, h3, h4, h5]
   · have h6 : code ≤ 4294967295 ∧ ¬ (57344 ≤ code ∧ code ≤ 63743) := by
       refine ⟨by omega, fun hh => h5 (hp hh)⟩
-    simp [h1, h2, h3, h4, h5, h6, hs]
+    have hs' : isScalar code = true := by
+      unfold isScalar; unfold Scalar at hs; simp; omega
+    simp [h1, h2, h3, h4, h5, h6, hs']
 
 theorem showNat_head (n : Nat) : ∃ x xs, showNat n = x :: xs ∧ 48 ≤ x ∧ x ≤ 57 := by
   cases hsn : showNat n with
@@ -384,8 +386,7 @@ theorem csiU_payload (code : Nat) (alts : List Nat) (mods : Option Nat) (h : (Ms
   obtain ⟨hc, ha, hm⟩ := h
   have hcode : code ≤ usizeMax := by
     have := hc.1
-    unfold isScalar at this
-    simp at this
+    unfold Scalar at this
     unfold usizeMax
     omega
   have hs : slice? (print (.csiU code alts mods)) 2 ((print (.csiU code alts mods)).length - 1) =
